@@ -213,6 +213,10 @@ mod inner {
     /// [`Collect`]: crate::collect::Collect
     /// [cache-docs]: crate::callsite#rebuilding-cached-interest
     pub fn rebuild_interest_cache() {
+        #[cfg(tokio_rs_tracing_verif)]
+        crate::verif::await_lock("callsite::rebuild_interest_cache::blocked", || {
+            REGISTRY.dispatchers.try_write().is_ok()
+        });
         let mut dispatchers = REGISTRY.dispatchers.write().unwrap();
         let callsites = &REGISTRY.callsites;
         rebuild_interest(callsites, &mut dispatchers);
@@ -229,17 +233,29 @@ mod inner {
     /// [`Callsite`]: crate::callsite::Callsite
     /// [reg-docs]: crate::callsite#registering-callsites
     pub fn register(registration: &'static Registration) {
+        #[cfg(tokio_rs_tracing_verif)]
+        crate::verif::await_lock("callsite::register::blocked", || {
+            REGISTRY.dispatchers.try_read().is_ok()
+        });
         let dispatchers = REGISTRY.dispatchers.read().unwrap();
         rebuild_callsite_interest(&dispatchers, registration.callsite);
+        #[cfg(tokio_rs_tracing_verif)]
+        crate::verif::yield_point("callsite::register::before_push");
         REGISTRY.callsites.push(registration);
     }
 
     pub(crate) fn register_dispatch(dispatch: &Dispatch) {
+        #[cfg(tokio_rs_tracing_verif)]
+        crate::verif::await_lock("callsite::register_dispatch::blocked", || {
+            REGISTRY.dispatchers.try_write().is_ok()
+        });
         let mut dispatchers = REGISTRY.dispatchers.write().unwrap();
         let callsites = &REGISTRY.callsites;
 
         dispatch.collector().on_register_dispatch(dispatch);
         dispatchers.push(dispatch.registrar());
+        #[cfg(tokio_rs_tracing_verif)]
+        crate::verif::yield_point("callsite::register_dispatch::before_rebuild");
 
         rebuild_interest(callsites, &mut dispatchers);
     }
@@ -267,6 +283,8 @@ mod inner {
             Interest::never()
         };
 
+        #[cfg(tokio_rs_tracing_verif)]
+        crate::verif::yield_point("callsite::rebuild_callsite_interest::before_set_interest");
         callsite.set_interest(interest)
     }
 
@@ -288,6 +306,8 @@ mod inner {
 
         callsites.for_each(|reg| rebuild_callsite_interest(dispatchers, reg.callsite));
 
+        #[cfg(tokio_rs_tracing_verif)]
+        crate::verif::yield_point("callsite::rebuild_interest::before_set_max");
         LevelFilter::set_max(max_level);
     }
 }
@@ -449,6 +469,8 @@ impl LinkedList {
                 `tracing-core::callsite::register` once per `Callsite`."
             );
 
+            #[cfg(tokio_rs_tracing_verif)]
+            crate::verif::yield_point("callsite::push::before_cas");
             match self.head.compare_exchange(
                 head,
                 registration as *const _ as *mut _,
